@@ -273,9 +273,7 @@ def replay(path, seed):
         obs = vc.ndjson(vc.harness("vh", ["plain"], stdin=json.dumps({"id": "r", "ty": rep["ty"], "v": rep["v"]}) + "\n"))[0]
         bad = not obs.get("back") or not obs.get("equal") or not check_spelling(rep["ty"], rep["v"], obs.get("text", ""))
     else:
-        tname = {"string": "PlStr"}.get(rep["ty"], "PlDbl")
-        obs = {}
-        bad = True
+        raise KeyError("generated-type record")
     print(json.dumps(obs))
     print("replay: property %s" % ("VIOLATED" if bad else "holds"))
     return 1 if bad else 0
